@@ -7,7 +7,7 @@ OpsOf(k) == CASE k = "image" -> {"Hash", "Bytes", "Open", "OpenCopy", "Signature
               [] k = "db" -> {"Bytes", "Marshal", "QueryHash", "QueryCert", "QueryAbsent", "ExistsList"}
               [] k = "update" -> {"Marshal", "Bytes"}
               [] k = "descriptor" -> {"Marshal", "VerifyA"}
-Objs == {<<"image", "signed">>, <<"image", "unsigned">>, <<"image", "twosigs">>, <<"image", "badsigs">>, <<"image", "unaligned">>, <<"db", "mixed">>, <<"db", "decoded">>, <<"db", "sparse">>, <<"db", "big">>, <<"update", "db">>, <<"descriptor", "db">>}
+Objs == {<<"image", "signed">>, <<"image", "unsigned">>, <<"image", "twosigs">>, <<"image", "badsigs">>, <<"image", "unaligned">>, <<"image", "mixedtypes">>, <<"db", "mixed">>, <<"db", "decoded">>, <<"db", "sparse">>, <<"db", "big">>, <<"update", "db">>, <<"descriptor", "db">>}
 SeqLen == IF Tier = "q" THEN 2 ELSE 3
 Seqs(S) == UNION {[1..n -> S] : n \in 1..SeqLen}
 (* an image of more than 3 MiB: a few programs only (each operation reads all of it) *)
